@@ -28,14 +28,15 @@ var Excluded = map[string]string{
 }
 
 type World struct {
-	Dir    string
-	Pkgs   []*packages.Package
-	ByPath map[string]*packages.Package
-	Prog   *ssa.Program
-	SPkgs  map[string]*ssa.Package
-	All    map[*ssa.Function]bool
-	CG     *callgraph.Graph
-	Fns    []*ssa.Function // module functions with bodies (incl. instantiations and closures), sorted
+	Dir     string
+	Overlay map[string][]byte // absolute path -> contents replacing the file on disk (seeded variants)
+	Pkgs    []*packages.Package
+	ByPath  map[string]*packages.Package
+	Prog    *ssa.Program
+	SPkgs   map[string]*ssa.Package
+	All     map[*ssa.Function]bool
+	CG      *callgraph.Graph
+	Fns     []*ssa.Function // module functions with bodies (incl. instantiations and closures), sorted
 }
 
 func RepoDir() string {
@@ -45,7 +46,17 @@ func RepoDir() string {
 	return "/repo"
 }
 
-func Load(goarch string) (*World, error) {
+// ReadFile reads a file of the analysed tree, honouring the overlay.
+func (w *World) ReadFile(abs string) ([]byte, error) {
+	if b, ok := w.Overlay[abs]; ok {
+		return b, nil
+	}
+	return os.ReadFile(abs)
+}
+
+func Load(goarch string) (*World, error) { return LoadOverlay(goarch, nil) }
+
+func LoadOverlay(goarch string, overlay map[string][]byte) (*World, error) {
 	// go/packages resolves the "go" binary through this process's PATH (exec.LookPath),
 	// not through cfg.Env, so the pinned toolchain is put in front of both.
 	if !strings.HasPrefix(os.Getenv("PATH"), GoBin+":") {
@@ -65,12 +76,12 @@ func Load(goarch string) (*World, error) {
 		env = append(env, "GOARCH="+goarch, "CGO_ENABLED=0")
 	}
 	dir := RepoDir()
-	cfg := &packages.Config{Mode: packages.LoadAllSyntax, Dir: dir, Env: env}
+	cfg := &packages.Config{Mode: packages.LoadAllSyntax, Dir: dir, Env: env, Overlay: overlay}
 	pkgs, err := packages.Load(cfg, "./...")
 	if err != nil {
 		return nil, err
 	}
-	w := &World{Dir: dir, ByPath: map[string]*packages.Package{}, SPkgs: map[string]*ssa.Package{}}
+	w := &World{Dir: dir, Overlay: overlay, ByPath: map[string]*packages.Package{}, SPkgs: map[string]*ssa.Package{}}
 	n := 0
 	for _, p := range pkgs {
 		if !strings.HasPrefix(p.PkgPath, Mod) {
